@@ -124,6 +124,21 @@ def _analyse(ctx):
                             findings.append(("DET-1", f.q, "rebinds global %s" % tgt.id, "%s rebinds the module-level name %s" % (f.q, tgt.id), w))
                         continue
                     recv = tgt if not kind.startswith("attribute") else tgt.value
+                    # rebinding an attribute of a class object (Class.x = v, cls.x = v, type(self).x = v)
+                    if kind.startswith("attribute"):
+                        base = tgt.value
+                        cname = None
+                        if isinstance(base, ast.Name) and base.id in repo.classes and base.id not in locs:
+                            cname = base.id
+                        elif isinstance(base, ast.Name) and base.id == "cls" and f.is_classmethod and f.cls is not None:
+                            cname = f.cls.name
+                        elif U(base) in ("type(self)", "self.__class__"):
+                            cname = f.cls.name if f.cls else "?"
+                        if cname:
+                            findings.append(("DET-2", f.q, "rebinds class attribute %s.%s" % (cname, tgt.attr),
+                                             "%s assigns %s.%s: a class attribute is shared by every assembly in the process, so what one program sets is seen by the next (%s)"
+                                             % (f.q, cname, tgt.attr, U(st)[:60]), w))
+                            continue
                     # what object is being mutated?
                     src = _shared_source(repo, m, imported, classlevel, modlevel, recv, locs, f)
                     if src is None and U(recv) in aliases:
